@@ -37,13 +37,16 @@ Definition wf_probe (p : probe) : Prop :=
 Definition wf (ps : list probe) : Prop := ps <> [] /\ Forall wf_probe ps.
 
 (* ---- declarative offsets ----
-   clusters: number of ids of a probe = largest cluster id + 1 (cluster ids have no per-probe array to count);
+   clusters: number of ids of a probe = largest cluster id + 1, over the ids carried by its spikes AND the ids listed in
+   its cluster_*.tsv files (a cluster without spikes that has a metadata row is a cluster of the probe; cluster ids have
+   no per-probe array to count);
    templates: number of templates of a probe = number of rows of its templates.npy (p_ntmpl) -- the SAME count by which
    write_templates / write_template_data (C12) advance the rows of the merged templates.npy;
    offset of probe k = sum over the earlier probes *)
 Definition zmaxl (l : list Z) : Z := fold_right Z.max 0 l.      (* the largest element of a non-empty list of ids >= 0 *)
 Definition n_ids (l : list Z) : Z := zmaxl l + 1.
-Definition coff_spec (ps : list probe) (k : nat) : Z := zsum (map (fun p => n_ids (p_clu p)) (firstn k ps)).
+Definition clu_ids (p : probe) : list Z := p_clu p ++ meta_ids p.     (* every cluster id the probe directory names *)
+Definition coff_spec (ps : list probe) (k : nat) : Z := zsum (map (fun p => n_ids (clu_ids p)) (firstn k ps)).
 Definition toff_spec (ps : list probe) (k : nat) : Z := zsum (map (@p_ntmpl A V F) (firstn k ps)).
 
 (* ---- order: strictly increasing in (time, probe, index within the probe) ---- *)
@@ -73,9 +76,13 @@ Fixpoint find_last (rows : list (Z * V)) (k : Z) : option V :=
 
 Definition meta_of (f : nat) (p : probe) : option metatab := nth f (p_meta p) None.
 
-(* metadata ids of every probe lie among the probe's cluster id range 0 .. max *)
+(* metadata ids of every probe lie among the probe's SPIKE cluster id range 0 .. max (no longer needed by C11_metadata:
+   the cluster count of a probe covers the metadata ids; kept for C11_metadata_needs_range) *)
 Definition meta_in_range (f : nat) (ps : list probe) : Prop :=
   forall p mt kv, In p ps -> meta_of f p = Some mt -> In kv (mt_rows mt) -> 0 <= fst kv <= zmaxl (p_clu p).
+(* metadata ids are cluster ids: not negative *)
+Definition meta_nonneg (f : nat) (ps : list probe) : Prop :=
+  forall p mt kv, In p ps -> meta_of f p = Some mt -> In kv (mt_rows mt) -> 0 <= fst kv.
 
 (* merged table: id + offset(probe) |-> value, exactly for the rows of the probes that have the file *)
 Definition Meta_spec (f : nat) (ps : list probe) (out : option metatab) : Prop :=
@@ -135,7 +142,7 @@ Record obs := mkobs {
 (* probe of a merged cluster id: the one whose interval [off_k, off_k + n_ids_k) contains it *)
 Fixpoint find_probe (k : nat) (ps : list probe) (offs : list Z) (c : Z) : option nat :=
   match ps, offs with
-  | p :: ps', o :: offs' => if (o <=? c) && (c <? o + n_ids (p_clu p)) then Some k else find_probe (S k) ps' offs' c
+  | p :: ps', o :: offs' => if (o <=? c) && (c <? o + n_ids (clu_ids p)) then Some k else find_probe (S k) ps' offs' c
   | _, _ => None
   end.
 
@@ -177,7 +184,7 @@ Definition c_sorted (ps : list probe) (o : obs) : bool :=
                      (zip_rows (o_times o) (o_amps o) (o_tmpl o) (o_clu o))).
 
 (* clause 23: each spike keeps its time and amplitude, ids shifted by the offsets of its probe; the registered offsets
-   are the declarative ones: clusters = sum of (largest id + 1), templates = sum of the template COUNTS (rows of the
+   are the declarative ones: clusters = sum of (largest id named by the probe + 1), templates = sum of the template COUNTS (rows of the
    probes' templates.npy) of the earlier probes *)
 Definition c_payload (ps : list probe) (o : obs) : bool :=
   lens_ok o && Nat.eqb (length (o_coffs o)) (length ps) && Nat.eqb (length (o_toffs o)) (length ps) &&
@@ -187,7 +194,7 @@ Definition c_payload (ps : list probe) (o : obs) : bool :=
   forallb (fun kp => perm_b row_eqb (sub_rows ps o (fst kp)) (rows_of (snd kp))) (combine (seq 0 (length ps)) ps).
 
 (* clause 24: the id intervals [off_k, off_k + n_k) of different probes are pairwise disjoint
-   (n_k = largest cluster id + 1 for clusters, = the probe's template count for templates) *)
+   (n_k = largest cluster id (spikes and metadata rows) + 1 for clusters, = the probe's template count for templates) *)
 Fixpoint ivs_disjoint (l : list (Z * Z)) : bool :=
   match l with
   | [] => true
@@ -195,19 +202,25 @@ Fixpoint ivs_disjoint (l : list (Z * Z)) : bool :=
   end.
 Definition c_disjoint (ps : list probe) (o : obs) : bool :=
   Nat.eqb (length (o_coffs o)) (length ps) && Nat.eqb (length (o_toffs o)) (length ps) &&
-  ivs_disjoint (combine (o_coffs o) (map (fun p => n_ids (p_clu p)) ps)) &&
+  ivs_disjoint (combine (o_coffs o) (map (fun p => n_ids (clu_ids p)) ps)) &&
   ivs_disjoint (combine (o_toffs o) (map (@p_ntmpl A V F) ps)).
 
-(* clause 25: cluster_probes[id + off_k] = k for every cluster id of probe k, and the table has no other entries *)
+(* clause 25: cluster_probes[id + off_k] = k for every cluster id of probe k (carried by a spike or listed in a metadata
+   file), and the table has no other entries *)
+(* every entry i, i + 1, ... of the table is the probe whose id interval contains its index (the index runs in Z: a
+   table has tens of thousands of entries) *)
+Fixpoint cp_entries_ok (fp : Z -> option nat) (i : Z) (l : list Z) : bool :=
+  match l with
+  | [] => true
+  | k' :: r => match fp i with Some k => k' =? Z.of_nat k | None => false end && cp_entries_ok fp (i + 1) r
+  end.
 Definition c_cprobes (ps : list probe) (o : obs) : bool :=
   forallb (fun kpo => let k := fst (fst kpo) in let p := snd (fst kpo) in let off := snd kpo in
              forallb (fun c => match nth_error (o_cprobes o) (Z.to_nat (c + off)) with
                                | Some k' => (0 <=? c + off) && (k' =? Z.of_nat k) | None => false end)
-                     (p_clu p))
+                     (clu_ids p))
           (combine (combine (seq 0 (length ps)) ps) (o_coffs o)) &&
-  forallb (fun ck => match find_probe 0 ps (o_coffs o) (fst ck) with
-                     | Some k => snd ck =? Z.of_nat k | None => false end)
-          (combine (map Z.of_nat (seq 0 (length (o_cprobes o)))) (o_cprobes o)).
+  cp_entries_ok (find_probe 0 ps (o_coffs o)) 0 (o_cprobes o).
 
 (* clause 26: renumbered metadata *)
 Definition meta_clause (f : nat) (ps : list probe) (coffs : list Z) (out : option metatab) : bool :=
@@ -227,6 +240,16 @@ Definition meta_clause (f : nat) (ps : list probe) (coffs : list Z) (out : optio
 Definition c_meta (ps : list probe) (o : obs) : bool :=
   Nat.eqb (length (o_meta o)) n_meta_files &&
   forallb (fun f => meta_clause f ps (o_coffs o) (nth f (o_meta o) None)) (seq 0 n_meta_files).
+
+(* clause 30: the integer dtypes of the merged spike_times / spike_clusters / spike_templates files hold every merged
+   value: the largest input time, the largest merged cluster id (total number of cluster ids - 1) and the largest merged
+   template id (total number of templates - 1); nothing can have wrapped around *)
+Definition c_width (ps : list probe) (odts : idt * idt * idt) : bool :=
+  match odts with (otd, ocd, oid) =>
+    forallb (fun t => fits otd t) (concat (map (@p_times A V F) ps)) &&
+    fits ocd 0 && fits ocd (coff_spec ps (length ps) - 1) &&
+    fits oid 0 && fits oid (toff_spec ps (length ps) - 1)
+  end.
 
 End Spec.
 
